@@ -12,7 +12,7 @@ PROPS = ["exactly_once", "results", "nodeadlock", "no_run_after_stop", "fifo", "
 def jobs(tier):
     thorough = tier == "thorough"
     sizes = [(1, 0), (2, 1), (2, 0)] + ([(1, 1), (2, 2), (3, 1)] if thorough else [])
-    full = {"name": "all-interleavings", "depth": 16 if not thorough else 20, "preempt": None, "timeout": 150 if not thorough else 1500}
+    full = {"name": "all-interleavings", "depth": 16 if not thorough else 18, "preempt": None, "timeout": 150 if not thorough else 900}
     ctx = {"name": "context-bounded", "depth": 30, "preempt": 2, "timeout": 1500}
     programs = [
         ("run", [["start", "enq0", "enq1", "await0", "await1", "stop"]], ["ret", "raise"], range(0, 6)),
@@ -27,7 +27,7 @@ def jobs(tier):
                 base = {"max": mx, "min": mn, "tasks": tasks, "clients": clients, "props": PROPS, "window_at": k}
                 out.append((dict(base, name="c09-{0}-max{1}min{2}-op{3}".format(pname, mx, mn, k), twin_prog="progress"),
                             full if mx <= 2 else dict(full, depth=14)))
-                if thorough and mx <= 2 and k % 2 == 0:
+                if False and thorough and mx <= 2 and k % 2 == 0:  # (context-bounded pool windows cost ~400 s each: C16 only)
                     out.append((dict(base, name="c09-{0}-max{1}min{2}-op{3}".format(pname, mx, mn, k), twin_prog="progress"), ctx))
         # a worker at its retirement decision / idle time-out while the client enqueues again
         if mn < mx:
